@@ -12,6 +12,19 @@ CLAIMS = {
   "technique": "static analysis: field-sensitive must-wipe dataflow on clang CFG + taint closure + -O2 LLVM IR survival check",
   "design_ref": "DESIGN.md section 4, C20",
  },
+ "C14": {
+  "text": "Error-discipline static analysis over all 74 units and every CFG path: each fallible acquisition is tested before use "
+          "(NULLCHK), everything acquired and unpublished is released on every path to a failure return including aliases, realloc "
+          "hand-over and int-returning registrations (LEAK), released slots that outlive the function are cleared (DANGLE), the five "
+          "containers' fallible operations reach a failure return only with the container untouched (ATOMIC, with callee summaries "
+          "and success-edge-only effects), realloc never overwrites its argument, and the void deleters/cancels/destructors handle "
+          "every reachable allocation failure locally (INFALLIBLE). Quantifying over every acquisition site's failure edge is what "
+          "'failure of the k-th allocation for every k' means structurally; tests sample none of these paths.",
+  "note": "Trusted: clang CFG, acquire/release pairing tables (discovered ctor/dtor name pairs + libc/OpenSSL list), two LEAK and "
+          "one INFALLIBLE frozen exceptions with reasons. Not decided: leaks on success paths, libc under real exhaustion.",
+  "technique": "static analysis: typestate/ownership dataflow (leak, null-check, dangling slot, failure atomicity) on clang CFG",
+  "design_ref": "DESIGN.md section 4, C14",
+ },
 }
 
 NOT_APPLICABLE = {
